@@ -6,6 +6,22 @@ NOTES = ("Every check: TLC model-checks the module's design on small constants, 
 NOT_APPLICABLE = {}
 SUSPENDED = {}
 CHECKS = {
+    "C15": {
+        "text": "FzfScreen specifies the rendition of the finder state for the comparable configuration (--no-color --no-unicode "
+                "--no-hscroll --no-scrollbar, full screen): Render(state, WxH, cfg) gives every terminal row (prompt with scrolled "
+                "query, info text in 5 styles with or without separator, header rows, list rows with pointer/marker, ellipsis "
+                "truncation, placement per --layout / --header-first / --header-lines / --no-input). TLC model-checks placement and "
+                "the documented claims on small constants (row count, width, one pointer on the current line, markers exactly on "
+                "selected visible items, headers outside the list), exports configuration x geometry x state cases that are "
+                "replayed into real tmux sessions (E), and judges the captured screen of every settle point of randomized real "
+                "sessions (C09 stimuli plus resizes, wide/combining items included) against Render (J).",
+        "design_ref": "DESIGN.md §6 C15",
+        "note": "Documented layer (placement, query/counts shown, line complete or truncated with ellipsis, pointer/marker, width) is "
+                "kept apart from the code-derived exact text. Colours, attributes, cursor position, spinner, preview, borders, "
+                "margins, --height, multi-line items, hscroll, scrollbar are not observed. The screen is judged only at settle "
+                "points (trace quiet, laid-out area = pane size, two identical captures). Trusted: TLC, tmux capture-pane, hooks.",
+        "technique": "TLA+ function-shaped spec + TLC MC; exported cases replayed under tmux; capture-pane records judged by TLC",
+    },
     "C11": {
         "text": "FzfAnsi.tla holds (A) the stripping scanner as an explicit state machine equal to the documented regular expression "
                 "(CSI, OSC, two-character ESC sequences, SI/SO, x BS) and (B) an independent ECMA-48 SGR / OSC-8 interpreter "
